@@ -264,24 +264,37 @@ def gran_rule(ctx, comp, ex, cls, cn):
 
 
 def init_rule(ctx, comp, ex, cls, cn):
-    """Initial contents go to exactly one bank (index 0); the other banks start empty."""
+    """Where the initial contents go.  The memory as a whole has to start as `init`:
+       MultiReadMemory        every replica holds init;
+       MultiportXORMemory     the row value is the XOR of the banks: bank 0 holds init, the others 0 - and so does every
+                              memory that mirrors a bank (the feedback memories of write port k mirror bank k), F6;
+       MultiportILVTMemory    bank 0 holds init and is the live bank everywhere: the live-value table starts at 0 (it is
+                              not data: F7), the other banks are empty;
+       OneHotCodedILVT        holds no data: its banks start empty."""
     n = 0
     for oid, o in ex.objects.items():
         c = o.ctor
-        if c[0] == "call" and c[1] in (("n", "MultiReadMemory"), ("a", ("n", "memory"), "Memory")):
+        is_table = c[0] == "call" and c[1] == ("a", ("self",), "memory_type")
+        if c[0] == "call" and (c[1] in (("n", "MultiReadMemory"), ("a", ("n", "memory"), "Memory")) or is_table):
             kw = dict(c[3])
             init = kw.get("init")
             if init is None:
                 continue
             n += 1
+            val = ex.vardef(init) or init
+            cons = f"{cls}.{o.name}.init"
             if cls == "MultiReadMemory":
-                ctx.check(init == pat("self.init"), "C23.init-placement", o.site, f"{cls}.{o.name}.init", found=tstr(init), required="every replica holds the initial contents")
-            elif init == ("list",):
-                ctx.ok("C23.init-placement", o.site, f"{cls}.{o.name}.init", found="[]", required="helper banks start empty", nontrivial=False)
+                ctx.check(init == pat("self.init"), "C23.init-placement", o.site, cons, found=tstr(init), required="every replica holds the initial contents")
+            elif is_table or cls == "OneHotCodedILVT":
+                ctx.check(val == ("list",), "C23.init-placement", o.site, cons, found=tstr(val), required="[]: a live-value table holds bank numbers / coding vectors, not data; it starts at 0 (bank 0 live)")
             else:
-                val = ex.vardef(init) or init
+                # a data bank, or a mirror of one: created under the loop over the write ports
                 ok = val[0] == "ife" and pmatch("Q_i == 0", val[1]) is not None and val[2] == pat("self.init") and val[3] == ("list",)
-                ctx.check(ok, "C23.init-placement", o.site, f"{cls}.{o.name}.init", found=tstr(val), required="initial contents only in bank 0 (XOR of all banks / live bank 0 must yield them)")
+                if ok:
+                    # the index compared with 0 is the bank index: the variable of the loop over the write ports
+                    iv = pmatch("Q_i == 0", val[1])["i"]
+                    ok = iv[0] == "b" and any(s == ("a", ("self",), "write_ports") or (s[0] == "obj" and s != ("obj", oid)) for s in subterms(iv[2]) if isinstance(s, tuple) and s)
+                ctx.check(ok, "C23.init-placement", o.site, cons, found=tstr(val), required="self.init if <bank index> == 0 else []: bank 0 and every memory mirroring it hold the initial contents, the other banks 0")
     return n
 
 
